@@ -70,8 +70,7 @@ FieldStep(forest, sch, focus, name) ==
   ELSE
     LET nodes == [j \in 1..Len(focus) |-> NodeAt(forest[focus[j].r], focus[j].addr)]
         valid == [j \in 1..Len(focus) |-> name \in ValidNames(sch, nodes[j])]
-    IN IF \A j \in 1..Len(focus) : ~valid[j] THEN NavErr
-       ELSE IF \E j \in 1..Len(focus) : ~valid[j] THEN NavAny          \* heterogeneous focus
+    IN IF \E j \in 1..Len(focus) : ~valid[j] THEN NavErr      \* not an element of the type of SOME item (a focus of several types): an error
        ELSE
          LET per == [j \in 1..Len(focus) |->
                        IF nodes[j].k = "prim" /\ name = "value" THEN ValueOfPrim(nodes[j])
